@@ -156,6 +156,63 @@ pub fn search(tier: &str, seed: u64, s: &mut Search) {
         let key = p.strip_prefix(crate::corpus::repo()).unwrap_or(&p).display().to_string();
         check_doc(s, "corpus", &key, &tree, &mut rng);
     }
+    // canvas-relative code paths: non-square pages, nested isolated groups whose layers are limited by the
+    // 5x5-canvas box on one side only, nested SVG images (their own scratch canvases), filters on them
+    let nt = (if tier == "thorough" { 400 } else { 48 }) * mult;
+    for i in 0..nt {
+        let (w, h) = *rng.pick(&[(320u32, 64u32), (64, 320), (300, 100), (90, 300), (200, 200), (256, 40)]);
+        let inner_svg = format!(
+            r##"<svg xmlns="http://www.w3.org/2000/svg" width="{}" height="{}"><rect width="100%" height="100%" fill="#08f"/><circle cx="50%" cy="50%" r="{}" fill="#ff0" stroke="black"/><path d="M 0 0 L {} {}" stroke="red" stroke-width="3"/></svg>"##,
+            w * 3 / 4, h * 3 / 4, w.min(h) / 4, w * 3 / 4, h * 3 / 4
+        );
+        let uri = format!("data:image/svg+xml;base64,{}", crate::c17::b64(inner_svg.as_bytes()));
+        let big = *rng.pick(&[400i64, 1500, 5000]);
+        let op = |rng: &mut Rng| *rng.pick(&[r#"opacity="0.8""#, r#"style="isolation:isolate""#, r#"style="mix-blend-mode:multiply""#, r##"filter="url(#bl)""##, r##"clip-path="url(#cl)""##, r##"mask="url(#mk)""##]);
+        let body = match i % 4 {
+            0 => format!(r##"<image x="{}" y="{}" width="{}" height="{}" xlink:href="{uri}"/>"##, w / 8, h / 8, w * 3 / 4, h * 3 / 4),
+            1 => format!(
+                r##"<g {}><rect x="-{big}" y="{}" width="{}" height="{}" fill="#0a0" fill-opacity="0.7"/><g {}><circle cx="{}" cy="{}" r="{}" fill="#f0f"/><rect x="{}" y="{}" width="{}" height="{}" fill="#00f" fill-opacity="0.6"/></g></g>"##,
+                op(&mut rng), h / 4, 2 * big, h / 2, op(&mut rng), w / 2, h / 2, h.min(w) / 3, w / 3, h / 5, w / 3, h / 2
+            ),
+            2 => format!(
+                r##"<g {}><rect x="{}" y="-{big}" width="{}" height="{}" fill="#0a0" fill-opacity="0.7"/><g {}><circle cx="{}" cy="{}" r="{}" fill="#f80"/><g {}><rect x="{}" y="{}" width="{}" height="{}" fill="#00f"/></g></g></g>"##,
+                op(&mut rng), w / 4, w / 2, 2 * big, op(&mut rng), w / 2, h / 2, h.min(w) / 3, op(&mut rng), w / 3, h / 5, w / 3, h / 2
+            ),
+            _ => format!(
+                r##"<g {}><image x="{}" y="{}" width="{}" height="{}" xlink:href="{uri}"/><g {}><rect x="-{big}" y="-{big}" width="{}" height="{}" fill="#f00" fill-opacity="0.3"/></g></g>"##,
+                op(&mut rng), w / 8, h / 8, w * 3 / 4, h * 3 / 4, op(&mut rng), 2 * big, 2 * big
+            ),
+        };
+        let svg = format!(
+            r##"<svg xmlns="http://www.w3.org/2000/svg" xmlns:xlink="http://www.w3.org/1999/xlink" width="{w}" height="{h}"><defs><filter id="bl" x="-0.2" y="-0.2" width="1.4" height="1.4"><feGaussianBlur stdDeviation="1.5"/></filter><clipPath id="cl"><rect x="-{big}" y="-{big}" width="{}" height="{}"/></clipPath><mask id="mk" maskUnits="userSpaceOnUse" x="-{big}" y="-{big}" width="{}" height="{}"><rect x="-{big}" y="-{big}" width="{}" height="{}" fill="white" fill-opacity="0.9"/></mask></defs>{body}</svg>"##,
+            2 * big, 2 * big, 2 * big, 2 * big, 2 * big, 2 * big
+        );
+        let Ok(Ok(tree)) = pan::catch(|| usvg::Tree::from_str(&svg, &crate::corpus::opts_for(None))) else { continue };
+        check_doc(s, "canvas-relative", &svg, &tree, &mut rng);
+    }
+    // filter regions far larger than the canvas (the layer is limited by the 5x5-canvas box, the region is not),
+    // with primitives whose output depends on position
+    let prims: [(&str, &str); 8] = [
+        ("turbulence", r#"<feTurbulence baseFrequency="0.05" numOctaves="1"/>"#),
+        ("flood-subregion", r#"<feFlood flood-color="green" x="30" y="30" width="60" height="40"/>"#),
+        ("offset", r#"<feOffset dx="13" dy="7"/>"#),
+        ("tile", r#"<feOffset x="20" y="20" width="30" height="30" dx="2"/><feTile/>"#),
+        ("diffuse-point-light", r#"<feDiffuseLighting lighting-color="white" surfaceScale="2"><fePointLight x="60" y="60" z="30"/></feDiffuseLighting>"#),
+        ("specular-spot-light", r#"<feSpecularLighting specularExponent="4" lighting-color="white"><feSpotLight x="40" y="40" z="30" pointsAtX="90" pointsAtY="90" pointsAtZ="0"/></feSpecularLighting>"#),
+        ("blur", r#"<feGaussianBlur stdDeviation="3"/>"#),
+        ("image", r##"<feImage xlink:href="#fi" x="40" y="40" width="50" height="50"/>"##),
+    ];
+    for (k, (name, prim)) in prims.iter().enumerate() {
+        for far in [300i64, 3000] {
+            let (w, h) = if k % 2 == 0 { (200u32, 200u32) } else { (240, 120) };
+            let svg = format!(
+                r##"<svg xmlns="http://www.w3.org/2000/svg" xmlns:xlink="http://www.w3.org/1999/xlink" width="{w}" height="{h}"><defs><rect id="fi" width="20" height="20" fill="red"/><filter id="f" filterUnits="userSpaceOnUse" x="-{far}" y="-{}" width="{}" height="{}">{prim}</filter></defs><rect x="20" y="20" width="100" height="80" fill="#46a" filter="url(#f)"/></svg>"##,
+                far * 2 / 3, far * 3, far * 2
+            );
+            let Ok(Ok(tree)) = pan::catch(|| usvg::Tree::from_str(&svg, &crate::corpus::opts_for(None))) else { continue };
+            check_doc(s, &format!("huge-filter-region:{}", name), &svg, &tree, &mut rng);
+        }
+    }
     let ng = (if tier == "thorough" { 1500 } else { 120 }) * mult;
     for _ in 0..ng {
         let (w, h) = (rng.range(20, 120) as u32, rng.range(20, 120) as u32);
